@@ -84,7 +84,7 @@ class ShapeTuple(tuple):
 
 def load_pre():
     nd.DTYPE_AWARE = True
-    return loader.load_unit('pre', dict(np=NP, len=lambda a: (1 if isinstance(a, tuple) and len(a) == 1 else slen(a))), name='pre_under_test')
+    return loader.load_unit('pre', dict(np=NP, float=symex.float_type, len=lambda a: (1 if isinstance(a, tuple) and len(a) == 1 else slen(a))), name='pre_under_test')
 
 
 def sig(N, dtype, readonly):
